@@ -278,7 +278,7 @@ fn run(plan: &Plan, ctx: &mut Ctx) -> R {
         let flag = op.a[3] & 1 == 1;
         let (x, y, z) = if n > 0 { (resolve(op.a[0], n), resolve(op.a[1], n), resolve(op.a[2], n)) } else { (0, 0, 0) };
         ncalls += 1;
-        let mut push = |ctx: &mut Ctx, c: *mut BP, nat: BP, m: TT, what: &str, cp: &mut Vec<*mut BP>, np: &mut Vec<BP>, model: &mut Vec<TT>| -> R {
+        let push = |ctx: &mut Ctx, c: *mut BP, nat: BP, m: TT, what: &str, cp: &mut Vec<*mut BP>, np: &mut Vec<BP>, model: &mut Vec<TT>| -> R {
             let cv: BP = unsafe { *c };
             let tc = wb::walk_raw(cv, &mut BTreeMap::new());
             let tn = wb::walk_raw(nat, &mut BTreeMap::new());
